@@ -47,15 +47,6 @@ func (d *rawProp) prop(t *T) {
 	}
 }
 
-// seedOfCase is the seed findBug uses for test case number iter (0-based), computed the way
-// findBug does (seed += iter per iteration).
-func seedOfCase(base uint64, iter int) uint64 {
-	e := base
-	for j := 0; j <= iter; j++ {
-		e += uint64(j)
-	}
-	return e
-}
 
 func H_C07_seedSchedule() {
 	seed0 := nondetU64("seed")
